@@ -19,8 +19,10 @@ def dmat(J, o, i, T):
     return np.zeros((T, T)) if e is None else M.dense(e, T)
 
 
-def check(rng):
+def check(rng, override=None):
     m = M.load()
+    if override:
+        m.CALIB.update(override)
     flat = m.flat()
     ss = m.solve_flat_ss()
     out, n = [], 0
@@ -83,6 +85,18 @@ def check(rng):
 def oracle(ctx, hints, broken):
     try:
         viol, n = check(ctx['rng'])
+        skipped = 0
+        if ctx['tier'] == 'thorough' or broken:
+            for _ in range(6):
+                ov = M.random_calib(ctx['rng'])
+                try:
+                    v2, n2 = check(ctx['rng'], ov)
+                except Exception:
+                    skipped += 1          # the generated model has no (reachable) steady state at this calibration
+                    continue
+                for v in v2:
+                    v['input'] = dict(v.get('input') or {}, calib_override=ov)
+                viol, n = viol + v2, n + n2
     except Exception as ex:
         import traceback
         viol, n = [dict(what=f'C05 oracle raised {type(ex).__name__}: {ex}', input=dict(kind='raise', trace=traceback.format_exc()[-600:]), signature=dict(op='raise'))], 1
@@ -96,5 +110,5 @@ def oracle(ctx, hints, broken):
 
 
 def replay(rp):
-    v = check(C.Rng(0))[0]
+    v = check(C.Rng(0), (rp.get('input') or {}).get('calib_override'))[0]
     return v[0] if v else None
